@@ -31,7 +31,7 @@
    [inclusion_sound] (C16), inherited from the derivative theorems; both are proved and instantiated
    here.)  No BFS is involved, so nothing is conditional on termination. *)
 Require Import Base CharSet Partition PartitionSpec LoopRange Regex Inclusion Constructors Deriv Explore.
-Require Import Denote Sem Lang OracleProofs ManagerProofs ConstructorProofs RunProofs DerivProofs GoodProofs.
+Require Import Denote Sem Lang ManagerProofs ConstructorProofs RunProofs DerivProofs GoodProofs.
 Require Import ReSearchProofs.
 Open Scope nat_scope.
 
